@@ -43,6 +43,9 @@ type Crash struct {
 	Seq       int64  `json:"seq"`
 }
 
+// (policy pct) Sticky is the percent chance, at a decision where the running
+// goroutine could go on, that it is demoted below everybody else.
+
 // G is a simulated goroutine.
 type G struct {
 	id       uint64
@@ -54,6 +57,8 @@ type G struct {
 	children int
 	done     bool
 	waiting  bool // waiting for quiescence
+	prio     int  // policy pct: the runnable goroutine with the highest priority runs
+	hasPrio  bool
 }
 
 // GInfo describes a goroutine alive at the end of a run.
@@ -87,6 +92,7 @@ type Sim struct {
 	tape    *Tape
 	aux     *rand.Rand
 	gap     int
+	pctLow  int // policy pct: next priority below everybody else
 	weights map[string]int
 	seq     atomic.Int64
 	stats   Stats
@@ -670,6 +676,31 @@ func (s *Sim) pickLocked(ps []*G) int {
 		case "starve":
 			// never pick the last name unless alone
 			return r.IntN(n - 1)
+		case "pct":
+			// priority scheduling with a few change points (after Burckhardt
+			// et al., "A randomized scheduler with probabilistic guarantees
+			// of finding bugs"): every goroutine gets a random priority when
+			// it is first seen, the runnable one with the highest priority
+			// runs, and now and then the one that was running drops below
+			// everybody else - it then runs only when nothing else can, which
+			// is the long delay that orderings of depth two or three need.
+			for _, g := range ps {
+				if !g.hasPrio {
+					g.hasPrio = true
+					g.prio = 1<<20 + r.IntN(1<<20)
+				}
+			}
+			if cont && r.IntN(100) < s.cfg.Sticky {
+				s.pctLow--
+				ps[0].prio = s.pctLow
+			}
+			best := 0
+			for i, g := range ps {
+				if g.prio > ps[best].prio {
+					best = i
+				}
+			}
+			return best
 		}
 		return r.IntN(n)
 	})
